@@ -172,6 +172,12 @@ func (cs *Contracts) loadContractFile(path, pkgPath string) error {
 		return err
 	}
 	cs.Files = append(cs.Files, path)
+	return cs.loadContractText(string(data), path, pkgPath)
+}
+
+// loadContractText parses //@ lines (of a file, or generated from a `generate` directive).
+func (cs *Contracts) loadContractText(text, path, pkgPath string) error {
+	data := []byte(text)
 	var lines []rawLine
 	for i, l := range strings.Split(string(data), "\n") {
 		t := strings.TrimSpace(l)
@@ -702,6 +708,11 @@ func loadAllContracts(repo, verif string, pkgDirs map[string]string) (*Contracts
 			}
 		}
 	}
+	return cs, nil
+}
+
+// mergeExtensions folds `extend` declarations into their base contracts (after generation).
+func (cs *Contracts) mergeExtensions() (*Contracts, error) {
 	for _, ext := range cs.Extensions {
 		id := ext.Options["$id"]
 		base := cs.Funcs[id]
